@@ -262,4 +262,67 @@ let () =
         { model = r1.model ^ " | " ^ r2.model;
           spec = (if r1.spec = "unspecified" || r2.spec = "unspecified" then "unspecified" else r1.spec ^ " | " ^ r2.spec);
           dom = r1.dom && r2.dom }
-    | _ -> failwith "defer")
+    | _ -> failwith "defer");
+  (* tini S:fn S:src S:initT S:axisform A:arr axis I:n — an initial value of another type than the element / result type: it is converted
+     to the result type (= the source element type: no dtype) FIRST, then the fold runs in that type *)
+  register "tini" (fun a -> match a with
+    | [fn; src; it; af; arr; ax; n] ->
+        let (s, data) = getA arr in
+        let fn = getS fn and src = getS src and it = getS it and kd = (getS af = "list") and ax = axis_of ax and n = getI n in
+        let ok = axes_ok (zlen s) ax in
+        if src = "f64" then begin
+          let fd = List.map (fun z -> float_of_int (int_of_z z) /. 4.0) data in
+          let srcf i = List.nth fd (int_of_z (horner Z0 i s)) in
+          let init = if it = "f32" then float_of_int (int_of_z n) /. 4.0 else float_of_int (int_of_z n) in
+          let op = (match fn with
+            | "sum" | "radd" -> (+.) | "prod" -> ( *. )
+            | "amax" -> (fun t u -> if t > u then t else u) | "amin" -> (fun t u -> if t < u then t else u) | f -> failwith ("tini " ^ f)) in
+          { model = (match remove_dims s ax kd with None -> "ub" | Some shp -> show_view fl shp (fun i -> reduce_at id_ op srcf s ax kd (Some init) i));
+            spec = (if ok then show_view fl (reduce_shape_spec s ax kd) (fun i -> reduce_spec id_ op srcf s ax kd (Some init) i) else "unspecified");
+            dom = posb s && ok }
+        end else begin
+          let srcf = elem_at s data in
+          let op = (match fn with "sum" | "radd" -> Z.add | "prod" -> Z.mul | "amax" -> Z.max | "amin" -> Z.min | f -> failwith ("tini " ^ f)) in
+          { model = (match remove_dims s ax kd with None -> "ub" | Some shp -> show_view string_of_z shp (fun i -> reduce_at id_ op srcf s ax kd (Some n) i));
+            spec = (if ok then show_view string_of_z (reduce_shape_spec s ax kd) (fun i -> reduce_spec id_ op srcf s ax kd (Some n) i) else "unspecified");
+            dom = posb s && ok }
+        end
+    | _ -> failwith "tini");
+  (* form S:form S:fn S:dtype S:kd A:arr axis init I:ddof — overload arities (c08_forms.cpp / c08_stat.cpp): the model ignores the call
+     form and evaluates the canonical (fn, dtype, keepdims, axis, initial, ddof); int8 data; the element type tag is part of the result *)
+  register "form" (fun a -> match a with
+    | [_; fn; d; kd; arr; ax; init; ddof] ->
+        let (s, data) = getA arr in
+        let fn = getS fn and r = req (getS d) and kd = kd_of (getS kd) in
+        let init = (match init with N -> None | I v -> Some v | _ -> failwith "init") in
+        let srcf = elem_at s data in
+        let rt = Dtype.reduce_dtype r Dtype.I8 in
+        let tag t = " ; view=" ^ (match t with Dtype.I8 -> "i8" | Dtype.I32 -> "i32" | Dtype.F32 -> "f32" | Dtype.F64 -> "f64" | _ -> "other") in
+        (match fn with
+         | "sum" | "prod" | "amax" | "amin" ->
+             let op = (match fn with "sum" -> Z.add | "prod" -> Z.mul | "amax" -> Z.max | _ -> Z.min) in
+             let ax = axis_of ax in
+             let ok = axes_ok (zlen s) ax in
+             { model = (match remove_dims s ax kd with None -> "ub"
+                        | Some shp -> show_view string_of_z shp (fun i -> typed_reduce_at r Dtype.I8 op srcf s ax kd init i) ^ tag rt);
+               spec = (if ok then show_view string_of_z (reduce_shape_spec s ax kd) (fun i -> typed_reduce_spec r Dtype.I8 op srcf s ax kd init i) ^ tag rt else "unspecified");
+               dom = posb s && ok }
+         | "cumsum" | "cumprod" ->
+             let op = if fn = "cumsum" then Z.add else Z.mul in
+             let axv = getI ax and n = zlen s in
+             { model = show_view string_of_z s (fun i -> typed_accumulate_at r Dtype.I8 op srcf n axv i) ^ tag rt;
+               spec = show_view string_of_z s (fun i -> typed_accumulate_spec r Dtype.I8 op srcf n axv i) ^ tag rt; dom = posb s }
+         | "mean" | "var" | "std" ->
+             (* statistics of int8 data: float32 by default, float64 when requested (the generated data keep the float32 results exact) *)
+             let ax = axis_of ax and ddof = float_of_int (int_of_z (getI ddof)) in
+             let mask = red_mask (nat_of_int (List.length s)) ax in
+             let srcfl i = float_of_int (int_of_z (srcf i)) in
+             let elems i = spec_elems srcfl mask s (if kd then drop_reduced mask i else i) in
+             let sum l = List.fold_left (+.) 0.0 l in
+             let mean l = sum l /. float_of_int (List.length l) in
+             let var l = let m = mean l in sum (List.map (fun x -> (x -. m) *. (x -. m)) l) /. (float_of_int (List.length l) -. ddof) in
+             let g = (match fn with "mean" -> mean | "var" -> var | _ -> (fun l -> sqrt (var l))) in
+             let st = (match r with None -> Dtype.F32 | Some t -> t) in
+             both (show_view fl (reduce_shape_spec s ax kd) (fun i -> Some (g (elems i))) ^ tag st) false
+         | f -> failwith ("form fn " ^ f))
+    | _ -> failwith "form")
